@@ -182,9 +182,95 @@ fn op_len(code: i128) -> usize {
     }
 }
 
+/// Zero-sized elements cost no memory, so the length can exceed u32::MAX: an iterator whose bookkeeping
+/// is narrower than usize shows here and nowhere else.  Compared against a length-only queue (every item
+/// is `()`): remaining count after each operation and what the operation returned (Some / None).
+#[cfg(target_pointer_width = "64")]
+fn huge<N: ArrayLength>(tag: i128, script: &[(i128, u64)]) {
+    let mut case = vec![-1, tag];
+    for (c, k) in script {
+        case.push(*c);
+        case.push(*k as i128);
+    }
+    emit_case(&case);
+    let arr: GenericArray<(), N> = unsafe { GenericArray::assume_init(GenericArray::<(), N>::uninit()) };
+    let mut it = arr.into_iter();
+    let mut remaining: u128 = N::U64 as u128;
+    let mut obs: Vec<i128> = vec![];
+    let mut oracle: Vec<String> = vec![];
+    for (step, (code, k)) in script.iter().enumerate() {
+        let k128 = *k as u128;
+        let (got, want): (bool, bool) = match code {
+            0 => (it.next().is_some(), remaining > 0),
+            1 => (it.next_back().is_some(), remaining > 0),
+            2 => (it.nth(*k as usize).is_some(), k128 < remaining),
+            _ => (it.nth_back(*k as usize).is_some(), k128 < remaining),
+        };
+        remaining = match code {
+            0 | 1 => remaining.saturating_sub(1),
+            _ => {
+                if k128 < remaining {
+                    remaining - k128 - 1
+                } else {
+                    0
+                }
+            }
+        };
+        obs.push(got as i128);
+        obs.push(it.len() as i128);
+        if got != want {
+            oracle.push(format!("huge zero-sized array (N = {}): step {} op {} {} returned {} where the queue says {}", N::U64, step, code, k, got, want));
+        }
+        if it.len() as u128 != remaining || it.size_hint() != (remaining as usize, Some(remaining as usize)) {
+            oracle.push(format!("huge zero-sized array (N = {}): after step {} len() = {} and size_hint = {:?} where the queue holds {}", N::U64, step, it.len(), it.size_hint(), remaining));
+        }
+    }
+    let left = it.count() as u128;
+    obs.push(left as i128);
+    if left != remaining {
+        oracle.push(format!("huge zero-sized array (N = {}): count() = {} where the queue holds {}", N::U64, left, remaining));
+    }
+    emit_obs(&obs);
+    for o in oracle {
+        emit_oracle(&o);
+    }
+}
+
+#[cfg(target_pointer_width = "64")]
+fn huge_all() {
+    type H0 = U4294967296; // 2^32
+    type H5 = Sum<U4294967296, U5>; // 2^32 + 5
+    type H31 = U2147483648; // 2^31
+    let scripts: Vec<Vec<(i128, u64)>> = vec![
+        vec![(0, 0), (1, 0), (2, 0), (3, 0)],
+        vec![(2, 5), (3, 5), (0, 0)],
+        vec![(2, 4294967295), (0, 0), (1, 0)],
+        vec![(3, 4294967296), (0, 0), (0, 0), (0, 0), (0, 0), (0, 0)],
+        vec![(2, 4294967300), (0, 0)],
+        vec![(2, u64::MAX), (0, 0)],
+        vec![(0, 0), (3, 2147483647), (2, 2147483647), (1, 0)],
+    ];
+    for (i, sc) in scripts.iter().enumerate() {
+        dist("huge_zst");
+        huge::<H0>(4294967296 + i as i128 * 0, sc);
+        huge::<H5>(4294967301, sc);
+        huge::<H31>(2147483648, sc);
+        let _ = i;
+    }
+}
+#[cfg(not(target_pointer_width = "64"))]
+fn huge_all() {
+    emit_note("huge zero-sized arrays are only built on 64-bit targets");
+}
+
 fn main() {
     let a = args();
     quiet_panics();
+    if a.extra.iter().any(|x| x == "--huge") {
+        huge_all();
+        flush_dist();
+        return;
+    }
     if let Some(c) = a.replay {
         do_case(c);
         return;
